@@ -163,7 +163,7 @@ func runC09(c *core.Ctx, crashes bool) {
 	w.Observers = append(w.Observers, &c09Oracle{c: c, e: e, seen: map[string]int{}})
 	sends, failing := 0, 0
 
-	blocks := 25 + ch.Int(35)
+	blocks := (25 + ch.Int(35)) * c.Scale
 	for bi := 0; bi < blocks; bi++ {
 		c.Step("c09-block")
 		n := w.Nodes[ch.Int(len(w.Nodes))]
